@@ -109,6 +109,19 @@ def gen_cases(rng, tier):
         cases.append({'kind': 'quantize', 'world': world, 'dm': dm, 'u': u, 'v': v,
                       'a': [akind, _frs(a)], 'b': [bkind, _frs(b)],
                       'rm': rng.choice(W.MODES + [None, None, None])})
+    # same-process sequences: the same fraction amount / quantum quantized without an
+    # explicit mode under changing default modes (a memo that forgets the mode, or any
+    # other process-global state, shows only here)
+    pre = {'predefined': True}
+    for g in range(12 if tier == 'quick' else 120):
+        u, v = rng.choice(['g', 'kg', 'lb']), rng.choice(['g', 'kg', 'mg'])
+        views = W.Views(pre)
+        nq = views.units[v]['scale'] / views.units[u]['scale']
+        a = (rng.choice([2, -3, 7, 0]) + rng.choice([F(1, 2), F(-1, 2), F(1, 3), F(2, 3)])) * nq
+        for m in rng.sample(W.MODES, 6):
+            cases.append({'kind': 'quantize', 'world': pre, 'dm': m, 'u': u, 'v': v,
+                          'a': ['frac', _frs(a)], 'b': ['frac', '1/1'], 'rm': None,
+                          'group': f"seq{g}"})
     return cases
 
 
